@@ -77,7 +77,7 @@ def dist_parse(cases):
 PARSE_PROPS = {
     "C01": P(["Model/LrDriver.v", "Proofs/Totality.v", "Proofs/ParserState.v", "Proofs/Typing.v", "Proofs/Ainfer.v", "Proofs/UserTyped.v",
               "Proofs/Automaton.v", "Proofs/LexerSafe.v", "Proofs/StackInv.v", "Proofs/DriverSafe.v", "Proofs/StackProp.v", "Proofs/ArityOk.v",
-              "Proofs/LexProgress.v", "Proofs/Termination.v", "Proofs/EndToEnd.v", "Properties/C01.v"], [],
+              "Proofs/LexProgress.v", "Proofs/RegexFuel.v", "Proofs/Termination.v", "Proofs/EndToEnd.v", "Properties/C01.v"], [],
              gens.gen_C01,
              "hand-picked crashers of the pinned tree + character soups, token soups, mutated/truncated documents, multi-byte characters and "
              "Unicode whitespace injected into gaps/comments/docs/strings, sets of up to 6 partly malformed files, generic nesting to depth "
@@ -95,13 +95,13 @@ PARSE_PROPS = {
              trusted_base=TB_PARSE, assumptions=ASSUME_PARSE + ["the abstract-document printer and mirror oracle (lib/gen.py, lib/oracles.py) state what 'mirrors' means"],
              distribution=dist_parse),
     "C03": P(["Model/LrDriver.v", "Proofs/Totality.v", "Proofs/Master.v", "Proofs/RegexLang.v", "Proofs/LexerSafe.v", "Proofs/Keywords.v",
-              "Proofs/Words.v", "Proofs/Typing.v", "Proofs/UserTyped.v", "Proofs/Automaton.v", "Proofs/DriverSafe.v", "Proofs/Grammar.v", "Properties/C03.v"], [], gens.gen_C03,
+              "Proofs/Words.v", "Proofs/Typing.v", "Proofs/UserTyped.v", "Proofs/Automaton.v", "Proofs/DriverSafe.v", "Proofs/Grammar.v", "Proofs/FirstSets.v", "Properties/C03.v"], [], gens.gen_C03,
              "well-formed documents (must be accepted silently), documents malformed by construction (keyword or reserved word as item / "
              "member / package name, missing package, two items, trailing text: must carry an Error), token-level mutations and soups "
              "(no tree => Error; no keyword stored as identifier), lexical corner cases; validation must keep every parse-stage diagnostic",
              runs=[("parse", "P", ["corr_parse_shape"]), ("validate", "V", ["spec_C03_kept"])], py_oracle=o_C03,
              trusted_base=TB_PARSE, assumptions=ASSUME_PARSE, distribution=dist_parse),
-    "C04": P(["Model/LrDriver.v", "Proofs/Totality.v", "Proofs/RangesOk.v", "Proofs/RangesOrd.v", "Proofs/StackProp.v", "Proofs/ArityOk.v", "Proofs/DiagSites.v", "Properties/C04.v"], [], gens.gen_C04,
+    "C04": P(["Model/LrDriver.v", "Proofs/Totality.v", "Proofs/RangesOk.v", "Proofs/RangesOrd.v", "Proofs/StackProp.v", "Proofs/ArityOk.v", "Proofs/DiagSites.v", "Proofs/RangesOrdVal.v", "Properties/C04.v"], [], gens.gen_C04,
              "well-formed documents x 4 layouts (+ multi-byte / Unicode-whitespace injection) and malformed inputs; for every reported range: "
              "ordered, inside the file, on character boundaries, line/column = the lookup's answer, the lookup itself checked against the "
              "specification; every name range covers exactly the name as written, full ranges run from first to last token, children inside "
